@@ -543,6 +543,7 @@ impl ChainM {
             storage: me.storage.iter().map(|(k, v)| (k.clone(), v.clone())).collect(),
             probes: script.probes.iter().map(|p| { let r = self.probe(contract, p); (r.clone(), r) }).collect(),
             reply,
+            storage_desc: (me.storage.iter().rev().map(|(k, v)| (k.clone(), v.clone())).collect(), vec![]),
         };
         out.trace.push(ev);
         {
@@ -557,6 +558,7 @@ impl ChainM {
                     }
                 }
             }
+            out.trace.last_mut().unwrap().storage_desc.1 = me.storage.iter().rev().map(|(k, v)| (k.clone(), v.clone())).collect();
         }
         if script.fail {
             return Err(Why::ContractError);
